@@ -25,6 +25,29 @@ theorem setBuf_dims (s : Surface) (b : List Cell) :
     (s.setBuf b).w = s.w ∧ (s.setBuf b).h = s.h ∧ (s.setBuf b).kids = s.kids ∧ (s.setBuf b).buf = b := by
   cases s; simp [Surface.setBuf, Surface.w, Surface.h, Surface.kids, Surface.buf]
 
+/-! ### the NewSurface calls of the source, evaluated -/
+
+theorem surface_center (a : Arith) (c : Ctx) :
+    newSurfaceFor a "center.Center.Draw" 0 c (0, 0) 0 = newSurface a c.maxW c.maxH := by
+  have h : surfaceArgs "center.Center.Draw" 0 = (.maxW, .maxH) := by decide
+  simp only [newSurfaceFor, h, evalSz]
+
+theorem surface_field (a : Arith) (c : Ctx) :
+    newSurfaceFor a "textfield.TextField.Draw" 0 c (0, 0) 0 = newSurface a c.maxW 1 := by
+  have h : surfaceArgs "textfield.TextField.Draw" 0 = (.maxW, .lit 1) := by decide
+  simp only [newSurfaceFor, h, evalSz]
+  rfl
+
+theorem surface_dynamic (a : Arith) (c : Ctx) :
+    newSurfaceFor a "list.Dynamic.Draw" 0 c (0, 0) 0 = newSurface a c.maxW c.maxH := by
+  have h : surfaceArgs "list.Dynamic.Draw" 0 = (.maxW, .maxH) := by decide
+  simp only [newSurfaceFor, h, evalSz]
+
+theorem surface_dynamic_cursor (a : Arith) (c : Ctx) (chH : UInt16) :
+    newSurfaceFor a "list.Dynamic.Draw" 1 c (0, 0) chH = newSurface a c.maxW chH := by
+  have h : surfaceArgs "list.Dynamic.Draw" 1 = (.maxW, .childH) := by decide
+  simp only [newSurfaceFor, h, evalSz]
+
 theorem index_lt (W H col row : Nat) (hc : col < W) (hr : row < H) : row * W + col < H * W := by
   have h1 : row * W + col < row * W + W := by omega
   have h2 : row * W + W = (row + 1) * W := by rw [Nat.add_mul]; simp
@@ -171,7 +194,7 @@ theorem centerAround_props (a : Arith) (c : Ctx) (ch : Surface) :
     (centerAround a c ch).w = c.maxW ∧ (centerAround a c ch).h = c.maxH ∧
     (centerAround a c ch).kids =
       .cons (Int.ofNat ((c.maxW - ch.w) / 2).toNat) (Int.ofNat ((c.maxH - ch.h) / 2).toNat) 0 ch .nil := by
-  simp [centerAround, newSurface, addChild, Kids.snoc, Surface.w, Surface.h, Surface.kids]
+  simp [centerAround, surface_center, newSurface, addChild, Kids.snoc, Surface.w, Surface.h, Surface.kids]
 
 theorem half_margin (p q : UInt16) (h : q ≤ p) :
     ((p - q) / 2).toNat = (p.toNat - q.toNat) / 2 := by
